@@ -21,6 +21,21 @@ CHECKS = {
         ref="§6 C03",
         note="Trusts kernel+VM, hand model of the set algebra (tied by chargen and recipe/Alphabet() correspondence families incl. flag triples), extraction, harness. Domain: valid UTF-8 recipe strings. No axioms.",
         technique="Coq proof (set algebra on duplicate-free lists, support of the gen monad) + differential correspondence + independent Python oracle on real outputs"),
+    "C04": dict(
+        text="Theorems for every word list, length, scheme and separator function: the law of what WLRecipe.Generate returns is the image under the rendering map of the PRODUCT of independent draws (capitalisation pattern, one uniform index in [0,size) per word, one fresh separator call per gap, the call inside Entropy()) — proved with a Fubini lemma for the expectation monad; every index vector has probability exactly (1/size)^L, every 'one' position 1/L, every 'random' subset (1/2)^L; the point probability of a password is exactly the product of its choices' probabilities whenever the pattern is readable (a decoder that is a left inverse of the rendering), hence all possible passwords are equally likely with a uniform separator; the premises about the kept words are derived from NewWordList under the property's title-casing premise.",
+        ref="§6 C04",
+        note="Trusts kernel+VM, the hand model of the assembly loop (tied by the wlgen correspondence family and by complete product cells run on the real code), strings.Title as an idempotent oracle. Domain: lists without an empty entry (F7), separators satisfying sep_ok (constants and character recipes with nothing left to require: every preset, everything opgen builds). No axioms.",
+        technique="Coq proof (product/Fubini theorem for the gen monad, decoder lemma, point masses) + differential correspondence + complete product-cell enumeration oracle"),
+    "C06": dict(
+        text="Theorems: character recipes — no string likelier than 1/count, every satisfying string has the same probability q with q*count = 1 - f^T, and the integer behind Entropy() is that count; wordlist recipes — for every scheme, every list of good words (uncapitalisable words included: then the bound is the min-entropy one without bonus), every length and every separator whose values are no likelier than 1/M and which reports log2 M, no (tokens, entropy) result is likelier than 1/wl_entropy_count; met with equality when generation is uniform; the entropy stored in a returned password is the one Entropy() computes (same generator term, any other value has probability 0).",
+        ref="§6 C06, §8 F7 F8",
+        note="Trusts kernel+VM, the hand models (tied by chargen/wlgen/entropy correspondence: Entropy() and Password.Entropy as float32 against log2 of the model's integer, with stated ulp tolerance), exact cell enumeration on the real code. Fallible separators beyond the sep_ok premise are the open finding F8; lists with an empty word F7. Float rounding is outside the proof. No axioms.",
+        technique="Coq proof (point-mass bounds via decoder lemma, geometric retry factor, integer form of the bound) + differential correspondence + exact-probability cell oracle"),
+    "C18": dict(
+        text="Theorems: the diagnostics of a generation are a function of the recipe alone (two runs on any two random sources emit identical output: non-interference); every emitted line is a fixed template with a decimal integer in the hole; the integers are the alphabet size (0) and the duplicate count. Tied to the code by comparing captured fd 1 / fd 2 / log output byte for byte with the model's rendering in every family (refused, failing, retried, exhausted, starved generations) and by the translator's census of output statements.",
+        ref="§6 C18",
+        note="Trusts kernel+VM, the Diag model (one constructor per output site), fd-level capture in the harness, the translator's output-site scanner (every print/log/panic-with-argument statement in the package, with static argument types). No axioms.",
+        technique="Coq proof (non-interference by construction + grammar of templates) + differential correspondence on captured output + output-site census regenerated from source + leak-search oracle"),
     "C07": dict(
         text="Theorem count_code_correct for every alphabet, every family of required sets (arbitrary overlaps, any number) and every length: the repaired counting recursion returns exactly the number of distinct satisfying strings; the integer behind Entropy() is that count on both code paths; never negative; zero iff unsatisfiable. The float tail (log2, float32) is compared with a 2-ulp tolerance against the exact integer exported by the verif hook.",
         ref="§6 C07, §8 F1",
